@@ -1,7 +1,7 @@
 #!/bin/sh
-# usage: tools/seedsave.sh <id> <outdir> "<needs>" "<caught-by / result>"
-ID="$1"; OUT="$2"; NEEDS="$3"; RES="$4"
-D=/verif/seeded/$ID
+# usage: tools/seedsave.sh <id> <outdir> "<needs>" "<caught-by / result>" [dir-suffix, e.g. -2 for a second seed]
+ID="$1"; OUT="$2"; NEEDS="$3"; RES="$4"; SUFFIX="${5:-}"
+D=/verif/seeded/$ID$SUFFIX
 mkdir -p "$D"
 cp "$OUT/patch.diff" "$D/patch.diff"
 cp "$OUT"/zz_seed_demo_test.go "$D/" 2>/dev/null
